@@ -5,6 +5,7 @@
 use std::collections::HashMap;
 use std::fs;
 use std::io::Write;
+use std::panic::{AssertUnwindSafe, catch_unwind};
 use std::path::{Path, PathBuf};
 use std::sync::{Arc, Mutex};
 
@@ -253,6 +254,7 @@ pub fn run_scenario<K: HKey>(sc: &Value, scratch: &Path, out: &mut Out) {
         "damage" => crate::damage::run_damage::<K>(&sid, &cfg, &ops, sel0, scratch, out, &sc["env"]),
         "plant" => crate::damage::run_plant::<K>(&sid, &cfg, &ops, sel0, scratch, out, &sc["env"]),
         "gate" => crate::damage::run_gate::<K>(&sid, &cfg, &ops, sel0, scratch, out, &sc["env"]),
+        "bulk" => run_bulk(&sid, &cfg, scratch, out, &sc["env"]),
         other => panic!("unknown mode {other}"),
     }
 }
@@ -307,6 +309,9 @@ fn run_crash<K: HKey>(
     for (i, op) in all_ops.iter().enumerate() {
         if i >= from {
             install_boundary_handler(&root, &imgdir, bd.clone());
+        } else {
+            // no boundaries yet, but the descriptors opened now are followed (the log segment stays open across operations)
+            shim::set_root(Some(&root));
         }
         let r = st.exec(op, sel0 + i);
         shim::uninstall();
@@ -401,4 +406,71 @@ fn run_fault<K: HKey>(sid: &Value, cfg: &Cfg, ops: &[Value], sel0: usize, scratc
         st.close();
         let _ = fs::remove_dir_all(&root);
     }
+}
+
+/// Block abstraction for "a multi-key range removal is one operation": a block of `n` concrete keys
+/// a00000.. stands for ONE abstract key (value full / none / partial).  The block and two outside keys are
+/// written, then `remove_range` over exactly the block runs with an image taken at every boundary; each
+/// image is recovered with the real code and the number of block keys left is reported.
+pub fn run_bulk(sid: &Value, cfg: &Cfg, scratch: &Path, out: &mut Out, env: &Value) {
+    use cassadilia::Cas;
+    let n = env["n"].as_u64().unwrap_or(1300) as usize;
+    let distinct = env["distinct"].as_u64().unwrap_or(1) as usize; // number of different contents in the block
+    let ckpt = env["ckpt"].as_bool().unwrap_or(true);
+    let root = fresh_root(scratch);
+    let imgdir = scratch.join("imgs");
+    let _ = fs::remove_dir_all(&imgdir);
+    fs::create_dir_all(&imgdir).unwrap();
+    out.emit(&json!({"ev": "reset", "sid": sid, "cfg": cfg.to_json(), "mode": "bulk"}));
+    let key = |i: usize| format!("a{i:05}");
+    let count = |cas: &Cas<String>| -> (usize, bool, usize) {
+        let g = cas.read_index_state();
+        let left = (0..n).filter(|i| g.contains_key(&key(*i))).count();
+        let outside = g.contains_key(&String::new()) && g.contains_key(&"b".to_string());
+        (left, outside, g.len())
+    };
+    let _armed = crate::watchdog::Armed::new("{\"op\":\"bulk\"}", 600);
+    shim::set_root(Some(&root)); // descriptors opened from now on are followed; boundaries only inside the removal
+    let cas = Cas::<String>::open(&root, cfg.config()).expect("bulk: open");
+    let put = |cas: &Cas<String>, k: String, body: &[u8]| {
+        let mut tx = cas.put(k).expect("bulk: put");
+        tx.write(body).expect("bulk: write");
+        tx.finish().expect("bulk: finish");
+    };
+    put(&cas, String::new(), b"outside-low");
+    put(&cas, "b".to_string(), b"outside-high");
+    for i in 0..n {
+        put(&cas, key(i), format!("block-{}", i % distinct).as_bytes());
+    }
+    if ckpt {
+        cas.checkpoint().expect("bulk: checkpoint");
+    }
+    let bd = Arc::new(Mutex::new(Boundaries::default()));
+    install_boundary_handler(&root, &imgdir, bd.clone());
+    let r = catch_unwind(AssertUnwindSafe(|| cas.remove_range("a0".to_string().."a9".to_string())));
+    shim::uninstall();
+    let res = match r {
+        Ok(Ok(c)) => crate::store::res_ok("ok", c as i64),
+        Ok(Err(e)) => crate::store::res_err(&crate::store::err_class(&e)),
+        Err(p) => crate::store::res_panic(&crate::store::panic_msg(p)),
+    };
+    let imgs = std::mem::take(&mut bd.lock().unwrap().imgs);
+    for (k, kind, pc, p) in imgs {
+        let rec = match catch_unwind(AssertUnwindSafe(|| Cas::<String>::open(&p, cfg.config()))) {
+            Ok(Ok(c2)) => {
+                let (left, outside, len) = count(&c2);
+                json!({"ok": true, "val": "ok", "left": left, "outside": outside, "len": len})
+            }
+            Ok(Err(_)) => json!({"ok": false, "val": "err", "left": -1, "outside": false, "len": -1}),
+            Err(_) => json!({"ok": false, "val": "panic", "left": -1, "outside": false, "len": -1}),
+        };
+        out.emit(&json!({"ev": "bulk", "phase": "img", "n": n, "k": k, "call": kind, "path": pc, "rec": rec}));
+        let _ = fs::remove_dir_all(&p);
+    }
+    let (left, outside, len) = count(&cas);
+    out.emit(&json!({"ev": "bulk", "phase": "done", "n": n, "k": 0, "call": "", "path": "", "res": res,
+                     "rec": {"ok": true, "val": "ok", "left": left, "outside": outside, "len": len}}));
+    drop(cas);
+    let _ = fs::remove_dir_all(&root);
+    let _ = fs::remove_dir_all(&imgdir);
 }
